@@ -542,6 +542,9 @@ class Obligation:
         return f"<{self.verdict} {self.name}>"
 
 
+_ESCALATIONS = [0]
+
+
 class Engine:
     def __init__(self, timeout_ms=20000, max_paths=20000, div0='raise', lognonpos='nan'):
         self.timeout_ms = timeout_ms
@@ -569,12 +572,14 @@ class Engine:
         self.pos_terms = set()
         self._last_solver = None
 
-    def _check(self, *extra):
+    def _check(self, *extra, timeout_ms=None, seed=None):
         """One non-incremental query: pc /\\ extra.  (A fresh solver lets z3 pick nlsat for QF_NRA; the
         incremental core is weak on nonlinear arithmetic and ignored the timeout in the first version.)"""
         t0 = time.time()
         s = z3.Solver()
-        s.set('timeout', self.timeout_ms)
+        s.set('timeout', timeout_ms or self.timeout_ms)
+        if seed is not None:
+            s.set('random_seed', seed)
         s.add(*self.pc)
         s.add(*extra)
         r = s.check()
@@ -730,6 +735,12 @@ class Engine:
             self.obligations.append(ob)
             return ob
         r = self._check(z3.Not(c))
+        if r == z3.unknown and _ESCALATIONS[0] < 24:
+            # a timeout is a statement about the machine, not about the obligation: when the cores are busy (or nlsat starts
+            # from an unlucky seed) the same query that normally takes milliseconds can run out of its budget.  Ask again with
+            # six times the budget and another seed before calling it undecided (bounded number of escalations per process).
+            _ESCALATIONS[0] += 1
+            r = self._check(z3.Not(c), timeout_ms=self.timeout_ms * 6, seed=11)
         backend = 'z3'
         model = None
         detail = ''
